@@ -571,3 +571,126 @@ Proof.
             fzero guess6 bump point_val _ nm sd pts H1 H2 H3 H4 H5 H6 H7 Helix_proofs.rn); [ | exact Htr].
   intros hp q. apply Helix_proofs.closest_t_range_lemma. exact Hat.
 Qed.
+
+(* ---------------- the IEEE hypotheses (N1), (N2) discharged for the binary64 instance ---------------- *)
+From Coq Require Import ZArith Reals Floats SpecFloat Lra.
+From Flocq Require Import Core BinarySingleNaN PrimFloat.
+Import Helix_proofs.
+Local Open Scope float_scope.
+Local Existing Instance Hprec.
+Local Existing Instance Hmax.
+
+(* (N1) over binary64: f64::partial_cmp of two non-NaN numbers is Some *)
+Lemma fcmp_prim_total x y : PrimFloat.is_nan x = false -> PrimFloat.is_nan y = false -> fcmp_prim x y <> None.
+Proof.
+  rewrite !is_nan_equiv. intros Nx Ny. unfold fcmp_prim.
+  rewrite !ltb_equiv, eqb_equiv. unfold Bltb, Beqb, SFltb, SFeqb.
+  change (SFcompare (B2SF (Prim2B x)) (B2SF (Prim2B y))) with (Bcompare (Prim2B x) (Prim2B y)).
+  change (SFcompare (B2SF (Prim2B y)) (B2SF (Prim2B x))) with (Bcompare (Prim2B y) (Prim2B x)).
+  rewrite (Bcompare_swap _ _ (Prim2B x) (Prim2B y)).
+  destruct (Bcompare (Prim2B x) (Prim2B y)) as [[ | | ] | ] eqn:E; cbn; try discriminate.
+  destruct (Bcompare_None _ _ E); congruence.
+Qed.
+
+Lemma fin_not_nan x : fin x -> PrimFloat.is_nan x = false.
+Proof. unfold fin. rewrite is_nan_equiv. destruct (Prim2B x); cbn; congruence. Qed.
+
+Definition Rabs_le1 (x : PrimFloat.float) : Prop := fin x /\ (Rabs (R_of x) <= 1)%R.
+
+Lemma bpow_emax_big : (4 < bpow radix2 emax)%R.
+Proof. change 4%R with (bpow radix2 2). apply bpow_lt. reflexivity. Qed.
+
+Lemma gf_bpow k : (-1000 <= k <= 1000)%Z -> generic_format radix2 (fexp prec emax) (bpow radix2 k).
+Proof.
+  intros Hk. apply generic_format_bpow. unfold fexp, emin, emax, prec. lia.
+Qed.
+
+Lemma round_bound (x : R) k : (-1000 <= k <= 1000)%Z -> (Rabs x <= bpow radix2 k)%R ->
+  (Rabs (round radix2 (fexp prec emax) (round_mode mode_NE) x) <= bpow radix2 k)%R.
+Proof. intros Hk Hx. apply abs_round_le_generic; [apply fexp_correct; reflexivity | apply valid_rnd_round_mode | apply gf_bpow; assumption | assumption]. Qed.
+
+Lemma add_bound x y : fin x -> fin y -> (Rabs (R_of x) <= 1)%R -> (Rabs (R_of y) <= 1)%R ->
+  fin (x + y) /\ (Rabs (R_of (x + y)) <= 2)%R.
+Proof.
+  unfold fin, R_of. intros Fx Fy Bx By. rewrite add_equiv.
+  generalize (Bplus_correct prec emax _ _ mode_NE (Prim2B x) (Prim2B y) Fx Fy).
+  assert (B : (Rabs (round radix2 (fexp prec emax) (round_mode mode_NE) (B2R (Prim2B x) + B2R (Prim2B y))) <= bpow radix2 1)%R).
+  { apply round_bound; [lia | ]. change (bpow radix2 1) with 2%R. eapply Rle_trans; [apply Rabs_triang | lra]. }
+  rewrite Rlt_bool_true by (generalize bpow_emax_big; change (bpow radix2 1) with 2%R in B; lra).
+  intros (A & F & _). split; [assumption | ]. rewrite A. exact B.
+Qed.
+Lemma sub_bound x y : fin x -> fin y -> (Rabs (R_of x) <= 1)%R -> (Rabs (R_of y) <= 1)%R ->
+  fin (x - y) /\ (Rabs (R_of (x - y)) <= 2)%R.
+Proof.
+  unfold fin, R_of. intros Fx Fy Bx By. rewrite sub_equiv.
+  generalize (Bminus_correct prec emax _ _ mode_NE (Prim2B x) (Prim2B y) Fx Fy).
+  assert (B : (Rabs (round radix2 (fexp prec emax) (round_mode mode_NE) (B2R (Prim2B x) - B2R (Prim2B y))) <= bpow radix2 1)%R).
+  { apply round_bound; [lia | ]. change (bpow radix2 1) with 2%R. unfold Rminus. eapply Rle_trans; [apply Rabs_triang | rewrite Rabs_Ropp; lra]. }
+  rewrite Rlt_bool_true by (generalize bpow_emax_big; change (bpow radix2 1) with 2%R in B; lra).
+  intros (A & F & _). split; [assumption | ]. rewrite A. exact B.
+Qed.
+
+Lemma R_of_two : R_of 2 = 2%R.
+Proof.
+  unfold R_of, Prim2B. rewrite B2R_SF2B.
+  replace (Prim2SF 2) with (S754_finite false 4503599627370496 (-51)) by reflexivity.
+  unfold SF2R, F2R. cbn [Fnum Fexp cond_Zopp]. change (bpow radix2 (-51)) with (/ IZR (Z.pow_pos 2 51))%R.
+  replace (Z.pow_pos 2 51) with 2251799813685248%Z by reflexivity. lra.
+Qed.
+Lemma half_bound x : fin x -> (Rabs (R_of x) <= 2)%R -> fin (x / 2) /\ (Rabs (R_of (x / 2)) <= 1)%R.
+Proof.
+  unfold fin. intros Fx Bx. generalize R_of_two. unfold R_of in *. intros R2. rewrite div_equiv.
+  assert (N2 : B2R (Prim2B 2) <> 0%R) by (rewrite R2; lra).
+  generalize (Bdiv_correct prec emax _ _ mode_NE (Prim2B x) (Prim2B 2) N2). rewrite R2.
+  assert (B : (Rabs (round radix2 (fexp prec emax) (round_mode mode_NE) (B2R (Prim2B x) / 2)) <= bpow radix2 0)%R).
+  { apply round_bound; [lia | ]. change (bpow radix2 0) with 1%R. unfold Rdiv. rewrite Rabs_mult, (Rabs_pos_eq (/ 2)) by lra. lra. }
+  rewrite Rlt_bool_true by (generalize bpow_emax_big; change (bpow radix2 0) with 1%R in B; lra).
+  intros (A & F & _). split; [congruence | ]. rewrite A. exact B.
+Qed.
+Lemma abs_fin x : fin x -> fin (abs x).
+Proof. unfold fin. rewrite abs_equiv. now rewrite is_finite_Babs. Qed.
+
+(* (N2) over binary64: for finite radii of magnitude at most 1 m, |p.r - (a.r + b.r)/2| is a number *)
+Lemma dev_prim_num a b p : Rabs_le1 a -> Rabs_le1 b -> Rabs_le1 p ->
+  PrimFloat.is_nan (abs (p - (a + b) / 2)) = false.
+Proof.
+  intros [Fa Ba] [Fb Bb] [Fp Bp].
+  destruct (add_bound a b Fa Fb Ba Bb) as [F1 B1].
+  destruct (half_bound _ F1 B1) as [F2 B2].
+  destruct (sub_bound p _ Fp F2 Bp B2) as [F3 _].
+  apply fin_not_nan, abs_fin, F3.
+Qed.
+
+(* fit_skeleton_total for the binary64 instance (three_template_prim of coq/Recon/Fit.v, the one the differential tag
+   fit3 runs): only the genuinely numeric gaps (N3), (N4) and the shape facts (N5) remain as hypotheses *)
+Theorem fit_skeleton_total_binary64_lemma :
+  forall (L : libm) guess6 bump point_val closest nm sd_tol_ok (pts : list spoint),
+  (forall p, In p pts -> Rabs_le1 (sp_r p)) ->
+  (forall p q, In q pts -> PrimFloat.is_nan (point_val p q) = false) ->
+  (forall (c : list PrimFloat.float -> res PrimFloat.float) s n,
+     (forall p, length p = n -> c p <> Panic /\ forall k, c p <> Err k) ->
+     Forall (fun v => length v = n) s -> s <> [] ->
+     exists v, nm c s = Ok (Some v) /\ length v = n) ->
+  (forall f m l, length (guess6 pts f m l) = 6%nat) -> sd_tol_ok = true -> (3 <= length pts)%nat ->
+  let fit := fit_cluster_to_helix PrimFloat.float spoint sp_r (sp_x L) (sp_y L) PrimFloat.ltb PrimFloat.eqb fcmp_prim
+               PrimFloat.is_nan PrimFloat.add PrimFloat.sub PrimFloat.mul (fun x => x / 2) PrimFloat.abs 0
+               guess6 bump point_val closest nm sd_tol_ok in
+  fit pts <> Panic /\ (forall k, fit pts = Err k -> k = E_noinit).
+Proof.
+  intros L guess6 bump point_val closest nm sd pts Hr H3 H4 H5 H6 H7.
+  apply fit_skeleton_total_lemma; try assumption.
+  - apply fcmp_prim_total.
+  - intros a b p Ha Hb Hp. unfold dev. apply dev_prim_num; apply Hr; assumption.
+Qed.
+
+(* ---------------- the open finding `tinyphi`: the witness is in the class, and on the binary64 model
+   (coq/Recon/Helix.v) the value of closest_t for the fit's initial guess is NaN: hypothesis (N3) fails there ------ *)
+Lemma tinyphi_witness_in_class : tinyphi_class tinyphi_witness = true.
+Proof. vm_compute. reflexivity. Qed.
+Lemma tinyphi_witness_nan :
+  match tinyphi_witness with
+  | p :: _ => PrimFloat.is_nan (closest_t tinyphi_libm tinyphi_guess p EPS 20) = true
+              /\ PrimFloat.is_nan (kf_e (kepler_setup tinyphi_libm tinyphi_guess p)) = true
+  | [] => False
+  end.
+Proof. vm_compute. split; reflexivity. Qed.
